@@ -43,9 +43,11 @@ PROPS = {
     },
     'C03': {
         'lean': ['Netpol.Properties.C03'],
-        'families': [('hist', 600, 40000)],
-        'shard_min': 100,
-        'rule': 'as C15; every CheckIfAllowed answer (numeric port 1..65535, at least one pod end) is compared with Contains() on the connection set the '
+        'families': [('evalw', 240, 10000), ('hist', 400, 30000)],
+        'shard_min': 20,
+        'rule': 'evalw: worlds, every ordered pair of pods / 11 probe addresses x 3 protocols x 34 probe ports (every generated port and its neighbours): CheckIfAllowed against '
+                'Contains() on the connection set of the list path of the same engine (and the model answers the same queries: K-diff on the answer string); the eval command '
+                '(with and without --fail) on pod manifests against list. hist: as C15; every CheckIfAllowed answer (numeric port 1..65535, at least one pod end) is compared with Contains() on the connection set the '
                 'list path (allAllowedConnections) computes on a fresh engine holding the same objects',
         'assumptions': ['World.Valid inputs'],
     },
